@@ -892,6 +892,8 @@ fn run_chain_inner(c: &Chain, obs: &mut Labels, nontrivial_out: &mut bool) -> Ch
             obs.label_if(d.sia != 0, "dress-sia");
             obs.label_if(d.as_id_as_range != 0, "dress-as-range");
             obs.label_if(d.no_null, "dress-no-null");
+            obs.label_if(d.ip_family_swap, "dress-ip-family-order");
+            obs.label_if(d.res_noncanon & 0x3f != 0, "dress-resources-noncanonical");
         }
         let der = build_der(c, i, &Overrides::default())?;
         let issuer = match &state {
@@ -1359,33 +1361,6 @@ fn cert_r() -> BoxedStrategy<CertR> {
         .boxed()
 }
 
-/// The foreign dress of a certificate from two raw values (monotone in the
-/// class, so shrinking moves towards the plain library encoding).
-fn make_dress(class: u16, r: u64) -> crate::der::Dress {
-    use crate::der::Dress;
-    const SIZES: [u16; 10] = [0, 1, 5, 100, 117, 118, 119, 245, 246, 300];
-    let unknown = |r: u64, n: usize| -> Vec<(u8, u16)> {
-        (0..n).map(|i| ((r >> (8 * i)) as u8, SIZES[((r >> (32 + 4 * i)) & 15) as usize % SIZES.len()])).collect()
-    };
-    match weighted(class, &[45, 12, 8, 5, 5, 5, 5, 15]) {
-        0 => Dress::default(),
-        1 => Dress { perm: 1 + (r % 64) as u32, ..Dress::default() },
-        2 => Dress { unknown: unknown(r, 1 + (r >> 60) as usize % 3), ..Dress::default() },
-        3 => Dress { cps: true, crldp_https: (r % 4) as u8, ..Dress::default() },
-        4 => Dress { sia: 1 + (r % 15) as u8, ..Dress::default() },
-        5 => Dress { as_id_as_range: (r as u32) | 1, ..Dress::default() },
-        6 => Dress { no_null: true, perm: (r % 3) as u32, ..Dress::default() },
-        _ => Dress {
-            perm: (r % 97) as u32,
-            unknown: unknown(r >> 7, (r >> 3) as usize % 3),
-            cps: r >> 5 & 1 == 1,
-            crldp_https: (r >> 9) as u8 % 4,
-            sia: (r >> 11) as u8 % 16,
-            as_id_as_range: if r >> 15 & 1 == 1 { (r >> 16) as u32 } else { 0 },
-            no_null: r >> 6 & 3 == 0,
-        },
-    }
-}
 
 fn chain_r() -> BoxedStrategy<ChainR> {
     (any::<bool>(), any::<bool>(), any::<u16>(), any::<u16>(), 0u8..8, prop::array::uniform4(cert_r()))
@@ -1572,7 +1547,7 @@ fn make_chain(r: &ChainR, accept_only: bool) -> Chain {
             na: 0,
             eval_ms: 0,
             serial: cr.serial,
-            dress: make_dress(cr.dress_c, cr.dress_r),
+            dress: crate::der::Dress::from_raw(cr.dress_c, cr.dress_r),
         };
         // resources
         for (k, f) in FAMS.into_iter().enumerate() {
@@ -1743,6 +1718,8 @@ pub fn property() -> Property {
                     ("dress-unknown-ext", 0.15),
                     ("dress-sia", 0.15),
                     ("dress-as-range", 0.1),
+                    ("dress-ip-family-order", 0.04),
+                    ("dress-resources-noncanonical", 0.08),
                 ],
             }
             .boxed(),
